@@ -376,7 +376,7 @@ func genC02(r *rng, thorough bool) {
 	if thorough {
 		m = 1500
 	}
-	vals := []string{"1", "2.5", "abc", "x y", "-3", "0", "hello", "Z", "7e3", "true"}
+	vals := []string{"1", "2.5", "abc", "x_y", "-3", "0", "hello", "Z", "7e3", "true"}
 	for i := 0; i < m; i++ {
 		var rs []record
 		nf := 1 + r.intn(4)
